@@ -518,7 +518,11 @@ impl<'a> G<'a> {
         // the lhs just written belongs to a list comparison: the caller marks it
         let w1 = self.ws();
         let w2 = self.ws();
-        let name = *self.rng.pick(&LIST_NAMES);
+        let name = if self.rng.chance(1, 14) {
+            *self.rng.pick(&["A", "aB", "l1.Z", ".a", "a.", "a-b", "", "\u{e9}"])
+        } else {
+            *self.rng.pick(&LIST_NAMES)
+        };
         format!("{w1}in{w2}${name}")
     }
 
@@ -577,6 +581,23 @@ impl<'a> G<'a> {
     fn call_cmp(&mut self, vec: bool, depth: u32) -> Option<String> {
         let o = self.ows();
         let o2 = self.ows();
+        if vec && self.rng.chance(1, 3) {
+            // mapped call with extra arguments: a literal, and a nested call (re-evaluating it
+            // per element is "expensive", so the engine memoises) over a possibly absent field
+            let (arg, _) = self.path_to(Type::Bytes, 0, true)?;
+            let v = self.some_int();
+            let extra = match self.rng.below(3) {
+                0 => "lower(oy)".to_string(),
+                1 => "oy".to_string(),
+                _ => format!("lower({})", self.path_to(Type::Bytes, 0, false)?.0),
+            };
+            if let Some(i) = self.spec.field_index("oy") {
+                self.note_field(i);
+            }
+            let rhs = self.op_rhs(Type::Bytes);
+            self.stats.push("call.mapped.extra");
+            return Some(format!("opt2({o}{arg},{}{},{}{extra}{o2})[*]{rhs}", self.ows(), self.int_lit(v), self.ows()));
+        }
         if vec {
             // mapped calls produce arrays: f(x[*])[*] op rhs
             let (arg, _) = self.path_to(Type::Bytes, 0, true)?;
@@ -730,6 +751,19 @@ impl<'a> G<'a> {
     /// (an identifier-led argument is an index expression plus at most one comparison, so
     /// chains must be parenthesised)
     fn quant_arg(&mut self, depth: u32) -> String {
+        if depth > 0 && self.focus != Focus::Scalar && self.rng.chance(1, 4) {
+            // a flat chain of 3..=4 boolean-array operands under ONE operator: the element-wise
+            // combination must truncate to the shortest operand whatever the values are
+            let n = 3 + self.rng.below(2);
+            let op = self.logical_op();
+            let mut t = format!("({})", self.comparison(true, 0));
+            for _ in 1..n {
+                let c = self.comparison(true, 0);
+                t = format!("{t}{}{op}{}{c}", self.ws(), self.ws());
+            }
+            self.stats.push("vec.chain3");
+            return t;
+        }
         if depth > 0 && self.rng.chance(1, 3) {
             let a = self.simple(true, depth);
             let b = self.simple(true, depth - 1);
